@@ -357,7 +357,7 @@ func (w *c08World) deliver(nd *c08Node, blk *types.Block, o *c08Obs) {
 	//   3: swapChainMapping (new mapping + Save of the new status) is flushed, the marker is not deleted.
 	// At the next start ChainDB.Init calls marker.RecoverChainMapping (mapping back to the old chain,
 	// "required for LIB loading"), the consensus status is loaded from the DB, and ChainService.Recover
-	// redoes the reorganisation from the marker: NeedReorganization(root), Update(root),
+	// redoes the reorganisation from the marker (without asking NeedReorganization again): Update(root),
 	// executeBlockReco (IsBlockValid, Update) for the new blocks, swapChainMapping + Save.
 	if w.crashAt == 3 {
 		swap()
@@ -378,11 +378,7 @@ func (w *c08World) deliver(nd *c08Node, blk *types.Block, o *c08Obs) {
 	fresh.st.Unlock()
 	fresh.st.libState.bpid = fresh.self
 	*nd = *fresh
-	if !nd.st.NeedReorganization(root.BlockNo()) {
-		o.NeedReorg = 0
-		o.Res = "recover_veto"
-		return
-	}
+	// (fix 479daa05: a reorganisation redone from the marker is not submitted to the veto again)
 	nd.st.Update(root)
 	for i := len(newBlocks) - 1; i >= 0; i-- {
 		nd.st.Update(newBlocks[i])
